@@ -184,6 +184,22 @@ def run(facts, rep, tier, ctx):
         run_world(facts, rep, wa, {"sites": 16, "observers": 9})
     else:
         rep.fail("R08.4", "async_vfs", "async world present", "async_vfs module not found in the all-features build")
+    # R08.5 a copy-up must produce an independent copy: the upper layer's file may not share storage with the lower one
+    # (a hard link / rename instead of a byte copy lets a later append through the overlay re-write the lower layer's file)
+    from .. import physrules
+    from ..report import Report
+    for w in (ws, wa):
+        if not w.present():
+            continue
+        scratch = Report("x")
+        physrules.table_o_shape(facts, scratch, "O", w)
+        k = 0
+        for o in scratch.obligations:
+            d = o["key"].split("|")[2]
+            if d.startswith("copy_file"):
+                k += 1
+                rep.ob("R08.5", o["fn"], d, o["ok"], o["detail"], o["loc"])
+        rep.floor("copy_file obligations on the physical backend (%s)" % w.tag, k, 2)
     rep.assume("a layer's own observing methods (read_dir/open_file/metadata/exists) do not mutate that layer's tree "
                "(in-crate backends: checked as a note; foreign FileSystem impls: assumed)")
     rep.assume("children yielded by VfsPath::read_dir/walk_dir live on the receiver's filesystem (rule R05.1)")
